@@ -34,6 +34,8 @@ type Clause struct {
 	// atcall: the callee (FuncID) before whose calls the assertion is checked; its
 	// receiver and arguments are available as a0, a1, ...
 	Callee      string
+	Optional    bool // atcall-if-any: the clause may match no call
+	Site        int // atcall: call-site ordinal (source order) the clause applies to, -1 for all
 	CalleeTypes []string // explicit receiver and parameter types (library callees)
 }
 
@@ -96,7 +98,7 @@ func (c *Contract) AllClauses() []*Clause {
 	return out
 }
 
-var reHead = regexp.MustCompile(`^(\w+)(?:\[([^\]]*)\])?\s*(.*)$`)
+var reHead = regexp.MustCompile(`^([\w-]+)(?:\[([^\]]*)\])?\s*(.*)$`)
 
 // ParseContractFile reads the //@ lines of one contract file.
 func ParseContractFile(pkgKey, path string) ([]*Contract, error) {
@@ -246,7 +248,7 @@ func ParseContractFile(pkgKey, path string) ([]*Contract, error) {
 				v = 1 << v
 			}
 			cur.AllocBound, cur.AllocProps = v, props
-		case "atcall":
+		case "atcall", "atcall-if-any":
 			// atcall <callee> expr: asserted before every call of <callee> in this function
 			sp := strings.SplitN(rest, " ", 2)
 			if len(sp) != 2 {
@@ -276,7 +278,16 @@ func ParseContractFile(pkgKey, path string) ([]*Contract, error) {
 			if err != nil {
 				return nil, fmt.Errorf("%s:%d: %v", path, it.line, err)
 			}
-			cur.AtCalls = append(cur.AtCalls, &Clause{Kind: "atcall", Props: props, Text: body, Callee: callee, Line: it.line, N: len(cur.AtCalls), CalleeTypes: ptypes, Binder: binders})
+			// optional call-site ordinal: callee#k is the k-th call of callee in source order
+			site := -1
+			if i := strings.LastIndex(callee, "#"); i >= 0 {
+				k, err := strconv.Atoi(callee[i+1:])
+				if err != nil {
+					return nil, fmt.Errorf("%s:%d: atcall callee#k", path, it.line)
+				}
+				callee, site = callee[:i], k
+			}
+			cur.AtCalls = append(cur.AtCalls, &Clause{Kind: "atcall", Props: props, Text: body, Callee: callee, Line: it.line, N: len(cur.AtCalls), CalleeTypes: ptypes, Binder: binders, Site: site, Optional: kw == "atcall-if-any"})
 		case "pure":
 			cur.Pure = true
 			if rest != "" {
